@@ -156,6 +156,27 @@ def directed_pairs():
         rec = [d for d in b.defs if d["name"] == "Reading"][0]
         rec["fields"][0] = ("level", P("uint32"))
         pairs.append((a, b, f"directed:{name}: Reading.level int32->uint32"))
+    # enums: the base type and the integer values are part of the encoding; the same pairs also with documentation comments on every
+    # definition, field, step and enum value (block-style YAML): comments never reach the schema, the base type and the values always do
+    for documented in (False, True):
+        for name, edit in (("enum-base", lambda e: e.update(base="int16")), ("enum-value", lambda e: e.update(values=[("idle", 0), ("body", 3), ("surface", 2)])),
+                           ("flags-base", None)):
+            a, b = base(), base()
+            for pkg in (a, b):
+                if name == "flags-base":
+                    pkg.defs.append({"kind": "enum", "name": "Mode", "flags": True, "base": "uint8", "auto": False, "values": [("idle", 1), ("body", 2), ("surface", 4)]})
+                else:
+                    pkg.defs.append({"kind": "enum", "name": "Mode", "flags": False, "base": "uint8", "auto": False, "values": [("idle", 0), ("body", 1), ("surface", 2)]})
+                pkg.defs.append({"kind": "record", "name": "Acq", "tparams": [], "fields": [("mode", ("named", "Mode", [])), ("n", P("int32"))]})
+                pkg.defs.append({"kind": "protocol", "name": "Pd", "steps": [("h", ("named", "Mode", []), False), ("s", ("named", "Acq", []), True)]})
+                if documented:
+                    pkg.block, pkg.comment_lines = True, "doc"
+            e = [d for d in b.defs if d["name"] == "Mode"][0]
+            if edit:
+                edit(e)
+            else:
+                e["base"] = "uint64"
+            pairs.append((a, b, f"directed:{name}{'-documented' if documented else ''}: Mode {name} changed"))
     return pairs
 
 
